@@ -20,7 +20,8 @@ SPEC = dict(
                  'ASan/UBSan red zones: every decoder input is the whole of an exactly-sized heap block (String inputs: owned copy and a String attached to an exactly-sized terminated block)',
                  'Python utf-8 codec, int, bytes.hex and base64 are the standards (self-checked on RFC examples at every run)',
                  'for surrogates only the inverse claim is checked; for values above U+10FFFF, truncated or malformed sequences only memory safety (and isValid == false for structurally broken input)',
-                 'fromBase64 on inputs that are not canonical RFC 4648 encodings: memory safety, termination, length bound and determinism only'],
+                 'fromBase64 on inputs that are not canonical RFC 4648 encodings: memory safety, termination, length bound and determinism only',
+                 'fallback build (-DVERIF_NO_PRIVATE): that a String really refers to the block it was attach()ed to is what the harness did, it is not confirmed by a look at the private fields'],
     technique='exhaustive enumeration of small input spaces under ASan/UBSan + reference comparison (online dumb models, offline Python stdlib)',
     exhaustive={Q: True, T: True},
     jobs=[
@@ -36,7 +37,7 @@ SPEC = dict(
         job('b64-rand', 'h_codec', 'b64-rand', cases={Q: 12000, T: 200000}, procs=16, rec=True),
         job('b64-bytes', 'h_codec', 'b64-bytes', cases={Q: 96 + 400, T: 96 + 10000}, procs=16, probes=["String.fromBase64/byte>=0x80/ubsan:index-N-out-of-bounds-for-type-'unsigned-char-[N]'", 'String.fromBase64/byte>=0x80']),
     ],
-    floors={Q: dict(code_points=1114112, encodings_compared=1112064, inverse_checks=2228224, truncated_inputs=3000000, array_overload_groups=17408, out_of_range_code_points=4096,
+    floors={Q: dict(ops=60000000, code_points=1114112, encodings_compared=1112064, inverse_checks=2228224, truncated_inputs=3000000, array_overload_groups=17408, out_of_range_code_points=4096,
                     offline_code_points_compared=1112064, offline_code_points_seen_incl_surrogates=1114112,
                     strings_len0=1, strings_len1=256, strings_len2=65536, strings_len3=16777216, decoder_inputs=17000000, fromstring_values_compared=4000000, offline_isvalid_compared=65793, offline_decodes_compared=2000,
                     int_values=400000, int_texts_compared=400000, int_parses=1200000, offline_ints_compared=20000,
@@ -47,7 +48,7 @@ SPEC = dict(
                     b64_roundtrips=70000, offline_base64_compared=70000, b64_group_position_pairs=393216, b64_inputs_with_high_bytes=300000, b64_random_arbitrary=80000,
                     **{'set:first_sequence_classes': 6, 'set:code_point_classes': 5, 'set:int_classes': 7, 'set:b64_padding_classes': 3, 'set:b64_free_positions': 6,
                        'set:attached_follow_classes': 6, 'set:attached_state_classes': 3}),
-            T: dict(code_points=1114112, encodings_compared=1112064, inverse_checks=2228224, truncated_inputs=3000000, array_overload_groups=17408, out_of_range_code_points=4096,
+            T: dict(ops=300000000, code_points=1114112, encodings_compared=1112064, inverse_checks=2228224, truncated_inputs=3000000, array_overload_groups=17408, out_of_range_code_points=4096,
                     offline_code_points_compared=1112064, offline_code_points_seen_incl_surrogates=1114112,
                     strings_len0=1, strings_len1=256, strings_len2=65536, strings_len3=16777216, strings_len4_lead4=134217728, decoder_inputs=150000000, fromstring_values_compared=7000000,
                     offline_isvalid_compared=65793, offline_decodes_compared=2000,
